@@ -71,7 +71,10 @@ class InternalEnforcer(CoreEnforcer):
                 return False
 
             if self.watcher and self.auto_notify_watcher:
-                self.watcher.update()
+                if callable(getattr(self.watcher, "update_for_update_policy", None)):
+                    self.watcher.update_for_update_policy(old_rule, new_rule)
+                else:
+                    self.watcher.update()
 
         return rule_updated
 
@@ -87,7 +90,10 @@ class InternalEnforcer(CoreEnforcer):
                 return False
 
             if self.watcher and self.auto_notify_watcher:
-                self.watcher.update()
+                if callable(getattr(self.watcher, "update_for_update_policies", None)):
+                    self.watcher.update_for_update_policies(old_rules, new_rules)
+                else:
+                    self.watcher.update()
 
         return rules_updated
 
@@ -184,7 +190,10 @@ class InternalEnforcer(CoreEnforcer):
                 return False
 
             if self.watcher and self.auto_notify_watcher:
-                self.watcher.update()
+                if callable(getattr(self.watcher, "update_for_remove_filtered_policy", None)):
+                    self.watcher.update_for_remove_filtered_policy(sec, ptype, field_index, *field_values)
+                else:
+                    self.watcher.update()
 
         return rule_removed
 
